@@ -662,29 +662,45 @@ fn shrink(src: &str, full: bool, key: &str) -> String {
     cur
 }
 
-/// root-cause class of a violation (prefix of the key used by known_findings.json)
-fn cause(key: &str, detail: &str, shrunk: &str) -> &'static str {
-    let what = key.rsplit('/').next().unwrap_or("");
+/// root-cause class of a violation (prefix of the key used by known_findings.json).
+/// The classes repaired in /repo (escape-greek-split, combining-mark-ident-split, guard-error-span,
+/// fmt-eol-comment-map: d7485e2, d674421, 38275da) are no longer recognised: whatever looks like them
+/// is reported as a regression / unclassified violation.  Only the 16-bit clamp of the formatter's
+/// output column is still an open class.
+fn cause(key: &str, detail: &str, _shrunk: &str) -> &'static str {
     if key == "loc-u16-saturation" {
         ""
-    } else if key.starts_with("panic/") && detail.contains("overflow") || detail.contains("invalid start/end span") {
-        "split-ident-col-overflow"
-    } else if key.starts_with("panic/") && detail.contains("unwrap") && shrunk.len() > 60000 {
-        "guard-empty-line-panic"
-    } else if detail.contains("too long]") {
-        "guard-error-span"
     } else if key == "gmap-out/col-saturated" {
         "fmt-out-col-u16"
-    } else if key.starts_with("gmap-out/") {
-        "fmt-eol-comment-map"
-    } else if shrunk.match_indices("\\\\").any(|(i, _)| shrunk[i + 2..].chars().next().is_some_and(|c| c.is_ascii_alphanumeric())) {
-        "escape-greek-split"
-    } else if what == "not-segment-boundary" {
-        "combining-mark-ident-split"
+    } else if detail.contains("too long]") {
+        "regression-guard-error-span"
     } else {
         "unclassified"
     }
 }
+
+/// former failing inputs of repaired defect classes: replayed first by `tie` and `search`
+/// (class, input)
+const REGRESSION: &[(&str, &str)] = &[
+    ("escape-greek-split", "\\\\pi"),
+    ("escape-greek-split", "\\\\eta"),
+    ("escape-greek-split", "\\\\tau"),
+    ("escape-greek-split", "\\\\3c0"),
+    ("escape-greek-split", "[\\\\eta"),
+    ("escape-greek-split", "(\\\\tau 1"),
+    ("escape-greek-split", "\\\\pi\\\\eta rev\\\\tau"),
+    ("combining-mark-ident-split", "r\u{301}"),
+    ("combining-mark-ident-split", "\u{3c4}\u{301}"),
+    ("combining-mark-ident-split", "\u{3b7}\u{301}"),
+    ("combining-mark-ident-split", "revr\u{301} dup\u{3b7}\u{301}x"),
+    ("fmt-eol-comment-map", "1# c\n2"),
+    ("fmt-eol-comment-map", "!#\n\u{2b8c}"),
+    ("fmt-eol-comment-map", "\n5#"),
+    ("fmt-eol-comment-map", "?#e\u{301}\u{301}\r\ne"),
+    ("fmt-eol-comment-map", "\u{1d110}#\r\n!"),
+    ("fmt-eol-comment-map", "o#\n*"),
+    ("fmt-eol-comment-map", "1 #a\n2#b\n+ # c\n\u{2b8c}"),
+];
 
 // ---------------------------------------------------------------- output
 
@@ -777,7 +793,7 @@ fn main() {
             let g = Gen::new();
             let mut k = 0;
             while k < n {
-                let (src, cat) = g.input(&mut r, true);
+                let (src, cat) = if k < REGRESSION.len() { (REGRESSION[k].1.to_string(), "regression") } else { g.input(&mut r, true) };
                 if segments(&src).len() > 90 {
                     continue;
                 }
@@ -802,7 +818,8 @@ fn main() {
                     seen.push(v.key.clone());
                     let small = shrink(&src, true, &v.key);
                     let detail = monitor(&small, &collect(&small, true)).into_iter().find(|x| x.key == v.key).map(|x| x.detail).unwrap_or(v.detail.clone());
-                    write!(line, "[{},{},{},{}]", jstr(&v.key), jstr(cause(&v.key, &detail, &small)), jstr(&small), jstr(&detail)).unwrap();
+                    let cz = if k < REGRESSION.len() { format!("regression-{}", REGRESSION[k].0) } else { cause(&v.key, &detail, &small).to_string() };
+                    write!(line, "[{},{},{},{}]", jstr(&v.key), jstr(&cz), jstr(&small), jstr(&detail)).unwrap();
                 }
                 line.push_str("]}");
                 println!("{line}");
@@ -857,9 +874,9 @@ fn main() {
                     }
                     seen_small.push((v.key.clone(), shown.clone()));
                     let cz: String = match label {
-                        // regression corpus: only the (unrepaired) span of the too-long error is a known class
+                        // regression corpus: nothing on these inputs is a known class any more
                         Some((c, _)) if v.key != "loc-u16-saturation" => {
-                            if detail.contains("too long]") && !v.key.starts_with("panic/") { "guard-error-span".to_string() } else { format!("regression-{c}") }
+                            format!("regression-{c}")
                         }
                         _ => cause(&v.key, &detail, &small).to_string(),
                     };
@@ -876,6 +893,9 @@ fn main() {
                     );
                 }
             };
+            for (cz, src) in REGRESSION {
+                run(src, "regression", true, Some((cz, src)), false);
+            }
             for (cz, label, src) in big_inputs() {
                 run(&src, "big", false, Some((cz, label)), false);
                 let accepted = catch(|| uiua::lex(&src, (), &mut Inputs::default()).0.len()).map(|n| n > 0).unwrap_or(false);
